@@ -34,6 +34,15 @@ def main():
         for src, dst in re.findall(r"`?([\w./-]+\.go)`?[^\n]*?\bto\s+`?((?:x|types)/[\w./-]+/)`?", readme):
             copies.append((src, dst + os.path.basename(src)))
     m = re.search(r"cd\s+(?:<repo>/)?(\S+)\s*&&\s*(go test[^\n]*)", readme)
+    # every .go file of the delivery must go somewhere: files not named in a pair go to the first directory the README names
+    gofiles = [f for f in os.listdir(os.path.join(d, "demo")) if f.endswith(".go")]
+    named = {os.path.basename(src) for src, _ in copies}
+    mdir = re.search(r"\bto\s+`?((?:x|types)/[\w./-]+?)/?`?\s", readme)
+    if mdir:
+        for f in gofiles:
+            if f not in named:
+                copies.append((f, mdir.group(1).rstrip("/") + "/" + f))
+    copies = [(s_, d_) for s_, d_ in copies if os.path.basename(s_) in gofiles]
     # a destination that is a directory gets the file name appended
     copies = [(src, dst if dst.rstrip(".,;").endswith(".go") else dst.rstrip(".,;").rstrip("/") + "/" + os.path.basename(src)) for src, dst in copies]
     if not copies or not m:
